@@ -148,6 +148,35 @@ example : handlerLog (fun _ _ => unitM) 5 0 (LState.init : LState Nat Nat Unit)
       [.activate pA [pA], .activate pB [pB, pA], .inv 7 1 4, .inv 8 2 5, .run 8 [okCall, okCall],
        .run 7 [okCall, okCall], .ret 7, .ret 8] = [1] := by decide
 
+/-- **… consistent with what callers can observe.** Cut any accepted history in two. A relay made
+    before the cut (in particular: of any request that had already RETURNED to its caller, see
+    `returned_has_relay`) stands in the common order before every relay made after the cut (in
+    particular: of any request invoked after it). So the common order never contradicts the
+    order in which callers saw their requests complete and start. -/
+theorem C06_real_time_order (Mof : Nat → EventNo → Merger ρ σ ο ε) (T : Nat) (h1 h2 : List (Ev ρ))
+    (s : LState ρ ο ε) (hr : run? Mof T LState.init (h1 ++ h2) = some s) :
+    ∃ s1, run? Mof T LState.init h1 = some s1 ∧
+      (∀ x ∈ s1.rets, ∃ d ∈ s1.log, d.tid = x.1 ∧ d.rid = x.2.1) ∧
+      ∀ d ∈ s1.log, ∀ d' ∈ s.log, d' ∉ s1.log → [d, d'].Sublist (order s) := by
+  rw [run_append] at hr
+  cases h : run? Mof T LState.init h1 with
+  | none => rw [h] at hr; simp at hr
+  | some s1 =>
+    rw [h] at hr
+    simp only [Option.bind_some] at hr
+    have hw := WF.run Mof T h1 _ _ (WF.init Mof T) h
+    refine ⟨s1, rfl, ?_, ?_⟩
+    · intro x hx
+      obtain ⟨d, hd, h1', h2', _⟩ := hw.rets x hx
+      exact ⟨d, hd, h1', h2'⟩
+    · intro d hd d' hd' hnew
+      exact order_respects_cut Mof T h2 s1 s hr d d' hd hd' hnew
+
+example : ∃ s : LState Nat Nat Unit,
+    run? (fun _ _ => unitM) 5 LState.init
+      ([.activate pA [pA], .inv 7 1 4, .run 7 [okCall], .ret 7] ++ [.inv 8 2 4, .run 8 [okCall], .ret 8]) = some s ∧
+    (order s).map (·.rid) = [1, 2] := ⟨_, rfl, by decide⟩
+
 /-- **Own result.** Whatever a caller is handed back was computed by `request` from ITS request
     (`rid`, `ev` select the collector), the plugin list at the moment it held the mutex, and the
     calls made for it — nothing of any other caller's request enters. -/
